@@ -551,10 +551,11 @@ def main(tier: str, seed: int) -> int:
 
     rng = random.Random(seed)
     rng.shuffle(cases)
-    budget = {"quick": 600, "thorough": 40000}[tier]
+    budget = {"quick": 480, "thorough": 40000}[tier]
     fam = [c for c in cases if any(f["kind"] == 4 for f in c["flows"]) or len(c["nodes"]) >= 4]   # second-order / 4-compartment class
     rest = [c for c in cases if c not in fam] if tier == "quick" else cases
-    work = (rest[: budget - min(len(fam), 200)] + fam[:200]) if tier == "quick" else cases[:budget]
+    fam.sort(key=lambda c: not c.get("confluence"))   # every confluence state first (stable: the rest stays shuffled)
+    work = (rest[: budget - min(len(fam), 180)] + fam[:180]) if tier == "quick" else cases[:budget]
     chunks = [(work[i : i + 10], seed) for i in range(0, len(work), 10)]
     results = [r for ch in core.pmap(_replay_chunk, chunks, procs=16, chunk=1) for r in ch]
     ndrift, nchecks, nontrivial = 0, 0, 0
